@@ -64,6 +64,8 @@ def attributes(src: str, name: str=None):
     return result
 
 
+quoted_opt = dict(scan_opt, escape=None)
+
 def attribute_name(scanner: Scanner):
     "Consumes attribute name from given scanner context"
     start = scanner.pos
@@ -82,7 +84,8 @@ def attribute_value(scanner: Scanner):
     "Consumes attribute value"
     # Supported attribute values are quoted, React-like expressions (`{foo}`)
     # or unquoted literals
-    return eat_quoted(scanner, scan_opt) or consume_paired(scanner) or unquoted(scanner)
+    # NB: backslash is not an escape character in quoted HTML value: `title="c:\\"`
+    return eat_quoted(scanner, quoted_opt) or consume_paired(scanner) or unquoted(scanner)
 
 
 def get_attribute_value(attrs: list, name: str):
